@@ -434,6 +434,31 @@ def more_shapes(row):
     return bad
 
 
+def takeover(row):
+    """A decorator that takes a parameter over and hands it out again in its own version - the same name in injected and in
+    expected: the parameter is there, with the new default, and nothing else changed."""
+    from boltons import funcutils
+    sig, mode = row["sig"], row["mode"]
+    if mode != "inject":
+        return []
+    name = NAME[row["arg"]]
+    f = make_func(sig, False, False)
+
+    def wrapper(*a, **kw):
+        return None
+    try:
+        w = funcutils.wraps(f, injected=[name], expected=[(name, 77)])(wrapper)
+        got = {n: (k, hd, d) for n, k, hd, d in params_of(w)}
+        orig = {n: (k, hd, d) for n, k, hd, d in params_of(f)}
+        if set(got) != set(orig) or name not in got or not got[name][1] or got[name][2] != 77:
+            return [("injected and expected name %r" % name, "expected-parameter-wrong", {"wrapper": sorted(got), "entry": list(got.get(name, ()))[:3]})]
+        if any(got[n] != orig[n] for n in orig if n != name):
+            return [("injected and expected name %r" % name, "expected-changes-other-parameters", sorted(got))]
+    except Exception as ex:
+        return [("injected and expected name %r" % name, "wraps-raised:" + core.exc_name(ex), str(ex)[:200])]
+    return []
+
+
 def decorator_reuse(row):
     """The object wraps(func, ...) returns is a decorator like any other: applied to a second and a third wrapper it gives
     the same own signature as the first time (arguments given as re-usable containers: a list, a mapping, a string)."""
@@ -525,7 +550,7 @@ def argument_forms(row):
 
 def run_row(row):
     from boltons import funcutils
-    bad = equalish_defaults(row) + injected_lists(row) + stacked(row) + odd_names(row) + expected_collisions(row) + expected_names(row) + more_shapes(row) + decorator_reuse(row) + argument_forms(row)
+    bad = equalish_defaults(row) + injected_lists(row) + stacked(row) + odd_names(row) + expected_collisions(row) + expected_names(row) + more_shapes(row) + decorator_reuse(row) + takeover(row) + argument_forms(row)
     sig, mode = row["sig"], row["mode"]
     want_params = [[NAME[p[0]], p[1], p[2]] for p in row["wparams"]]
     seen = row["seen"]
